@@ -15,7 +15,7 @@ package server
 // connection in exactly one Write — replies of concurrent queries on one connection can therefore
 // not interleave (a TLS or plain TCP connection serialises whole Write calls, not pairs of them);
 // the buffer is released once; a handler that returns nothing closes the connection.
-//@ func ServeTCP$1$1 [C16]
+//@ func ServeTCP$1$1 [C16, C03]
 //@   requires c != nil && h != nil
 //@   modifies *
 //@   ensures calls(Handle) == 1 && arg(Handle, 0, 0) == h && arg(Handle, 0, 2) == req && isfunc(arg(Handle, 0, 4), pool.PackTCPBuffer)
